@@ -200,7 +200,7 @@ func buildC13(tier string) *core.Plan {
 	}
 	spaces := []core.Space{mk(0, nseg, nref, true), mk(1, nseg, nref, true), mk(2, nseg, nref, true)}
 	if tier == "thorough" {
-		spaces = append(spaces, mk(3, 4, nref, false), mk(4, 2, 7, false))
+		spaces = append(spaces, mk(3, nseg, nref, false), mk(4, 3, nref, false))
 	} else {
 		spaces = append(spaces, mk(3, 2, 7, false))
 	}
@@ -263,7 +263,7 @@ func buildC13(tier string) *core.Plan {
 
 	return &core.Plan{
 		Spaces: spaces,
-		Rule: "every template of k+1 $-free literal segments (9 forms incl. double quotes next to the delimiters, '}', ':', unicode) alternating with k references (12 forms: int/string/nested/float/bool paths, $env:V, unset $env:U, four missing paths incl. paths continuing below a scalar, $repeat) for k = 0..3 (thorough 4), " +
+		Rule: "every template of k+1 $-free literal segments (9 forms incl. double quotes next to the delimiters, '}', ':', unicode) alternating with k references (12 forms: int/string/nested/float/bool paths, $env:V, unset $env:U, four missing paths incl. paths continuing below a scalar, $repeat) for k = 0..2 in full, k = 3 over the first 2 segments x 7 references (thorough: k = 3 in full, k = 4 over 3 segments x all references), " +
 			"as a value and as a key, under every one of 18 environment values; whole-string $env in values, keys and list entries",
 		Assumptions: []string{"refInterp: the result is the concatenation of the literal segments and Go %v of the referenced scalars; $env values are strings",
 			"an environment value that is itself directive-shaped ($x) at the start of the result is not judged (C07 forbids it in output, C13 wants the literal)",
